@@ -3,8 +3,8 @@ every C09 / C12 sweep).  They tie to the implementation the model definitions be
 `<env>_reset_obs_valid`, `<env>_step_obs_valid`, `<env>_reset_obs_faithful`:
 
   * `<name>.spec`  : the model's `obsSpec cfg` (and action / reward / discount spec) against the real spec objects of EVERY
-                     configuration of the adapter, leaf by leaf: key, kind, shape, dtype, name, bounds — including the leaves too
-                     large for Gen/Specs.lean (Sokoban `grid`, PacMan `grid` and `pellet_locations`);
+                     configuration of the adapter, leaf by leaf: key, kind, shape, dtype, name, bounds — including the large
+                     leaves (Sokoban `grid`, PacMan `grid` and `pellet_locations`; Gen/Specs.lean holds them too since it cuts by bounds size);
   * `<name>.state` : `reset_ts` = the timestep the model's `reset` builds on top of a generated state against `env.reset`;
                      `nvalue` = the model observation as spec-level arrays (`toNValue`: shape, dtype, row-major data) against
                      the implementation's observation arrays; `obs_in_spec` = `(obsSpec cfg).valid` against the real
